@@ -1,6 +1,8 @@
 import RichModel.Lemmas.Theme
 import RichModel.Lemmas.ThemeHist
 import RichModel.Lemmas.ThemeConfig
+import RichModel.Lemmas.ThemeConfigTotal
+import RichModel.Lemmas.ThemeThreads
 import RichModel.Gen.DefaultStyleNames
 /-!
 # C20 — named styles resolve through a well-behaved theme stack
@@ -14,6 +16,14 @@ Property theorems only (definitions of the specification and helper lemmas live 
 * `runOps f h st` runs a history `h` of `push_theme` / `pop_theme` / `raise` / `with use_theme(..): body`
   statements; `f = true` is `ThemeContext.__enter__` of rich 9.10.0 as found (it ignores `inherit`), `f = false` the
   repaired code (fix 2ea71d3, what /repo contains now).
+* `runF` / `runMT shared f` run flat atomic steps (each in its own `try`) on one stack / on the stacks
+  of several threads; `shared = true` is `ConsoleThreadLocals` as found (one `ThemeStack` object for
+  all threads), `false` one stack per thread over the same base theme.
+* `Console(theme=…)`: `ThemeStack(themes.DEFAULT if theme is None else theme)`.  A variant testing
+  `if not theme` instead of `is None` is *equivalent*, not a gap: `Theme` defines neither `__bool__`
+  nor `__len__`, so every `Theme` instance is truthy and both tests pick `themes.DEFAULT` exactly for
+  `None`; there is no input that separates them (the harness checks `Console(theme=Theme({}, inherit=False))`
+  — an empty theme — keeps that theme as base).
 * `cfgItems lower interp` is the modelled `configparser`; `lower` / `interp` = `true` is the parser
   `Theme.from_file` built in rich 9.10.0 as found (`optionxform = str.lower`, `BasicInterpolation`); /repo now builds
   `lower = true`, `interp = false`: interpolation was switched off by fix 1124f7d, the lower-casing is the known finding
@@ -106,6 +116,33 @@ theorem lookup_after_history (parse : Parse σ) (base : Theme σ) (h : List (Op 
   rw [init_eq_stackOf, history_refines]
   exact resolve_spec parse base.styles _ (specOps_wf h [] hwf (by intro f hf; simp at hf)) n
 
+/-- **lookups read the top entry only**: two stacks whose top entries coincide answer every
+`get_style(name, default=…)` alike, whatever lies below (so a variant that consults the base, or
+any middle entry, after the top one is observably different as soon as the top entry lacks a name
+that a lower entry has — the harness evaluates exactly this on every snapshot). -/
+theorem lookup_reads_top_entry_only (parse : Parse σ) (st st' : Stack σ) (hwf : st.WF) (hwf' : st'.WF)
+    (h : st.entries.getLast? = st'.entries.getLast?) (name : NS σ) (default : Option (NS σ)) :
+    getStyle parse st name default = getStyle parse st' name default := by
+  have hb : st.bound = st'.bound := by
+    have h1 : st.entries.getLast? = some st.bound := hwf
+    have h2 : st'.entries.getLast? = some st'.bound := hwf'
+    rw [h1, h2] at h
+    exact Option.some.inj h
+  exact getStyle_bound_only parse st st' hb name default
+
+/-- Which results of `get_style` are fresh objects: forgetting identity gives `get_style`; a looked-up
+or parsed style is copied (new link id) exactly when it has a link; a `Style` instance passed as
+`name` (or as the `default` that ends up being used) is returned as it is. -/
+theorem get_style_object_spec (parse : Parse σ) (linked : σ → Bool) (st : Stack σ) (name : NS σ)
+    (default : Option (NS σ)) :
+    (getStyleObj parse linked st name default).map Got.val = getStyle parse st name default ∧
+    (∀ n s, resolve parse st n = .ok s →
+      getStyleObj parse linked st (.str n) default = .ok (if linked s then .fresh s else .same s)) ∧
+    (∀ s, getStyleObj parse linked st (.style s) default = .ok (.same s)) := by
+  refine ⟨getStyleObj_val parse linked st name default, ?_, fun s => rfl⟩
+  intro n s hr
+  simp [getStyleObj, hr, copyIfLink]
+
 /-! ## push / pop discipline -/
 
 /-- **pop_push_id**: `pop_theme` after `push_theme` gives back the very same stack — entries and
@@ -162,6 +199,47 @@ theorem base_survives (f : Bool) (h : List (Op σ)) (base : Theme σ) :
 theorem trace_is_run (f : Bool) (h : List (Op σ)) (st : Stack σ) :
     ((traceOps f h st).1, (traceOps f h st).2.1) = runOps f h st :=
   traceOps_run f h st
+
+/-! ## outside mutation of the base theme's dict (documented non-finding) -/
+
+/-- `ThemeStack.__init__` keeps `theme.styles` itself as `_entries[0]`; pushed entries are fresh
+dicts.  So: any number of pushes, then `base_theme.styles[k] = v` from outside, then as many pops
+leave exactly the original stack with that assignment applied — the lookups the console would give
+had the pushes never happened.  Popping "restores" in this sense also across outside mutation. -/
+theorem restore_after_base_mutation (f : Bool) (k : Name) (v : σ) (ps : List (Theme σ × Bool))
+    (st : Stack σ) (hwf : st.WF) :
+    runF f (ps.map (fun p => FStep.push p.1 p.2) ++ FStep.setBase k v :: List.replicate ps.length FStep.pop) st
+      = mutBase k v st :=
+  runF_pushes_setBase_pops f k v ps st hwf
+
+/-- What is *not* promised (and is how the code behaves, checked on every generated schedule): while an
+inheriting push is open it holds a snapshot of the entries below, so the outside assignment to the
+base (`a := 9`) is invisible until the pop, after which it shows. -/
+theorem inherit_snapshot_is_stale :
+    (runF (σ := Nat) false [.push ⟨[(['c'], 2)]⟩ true, .setBase ['a'] 9] (Stack.init ⟨[(['a'], 1)]⟩)).get ['a'] = some 1 ∧
+    (runF (σ := Nat) false [.push ⟨[(['c'], 2)]⟩ true, .setBase ['a'] 9, .pop] (Stack.init ⟨[(['a'], 1)]⟩)).get ['a'] = some 9 := by
+  decide
+
+/-! ## threads -/
+
+/-- **thread_isolation** (one `ThemeStack` per thread, the repaired `ConsoleThreadLocals`): for
+every interleaving of the steps of any number of threads, a thread's stack is what its own steps
+(plus everybody's assignments to the shared base dict) produce when run alone — pushes and pops of
+other threads are invisible, so balanced blocks restore per thread. -/
+theorem thread_isolation (f : Bool) (tid : Nat) (sch : List (Nat × FStep σ)) (S : Nat → Stack σ) :
+    runMT false f sch S tid = runF f ((sch.filter (relevant tid)).map (·.2)) (S tid) :=
+  runMT_isolated f tid sch S
+
+/-- The code as found: `threading.local` hands every thread the same `ThemeStack` object.  Thread 1,
+which never pushed, sees thread 0's theme (`a ↦ 2`); and thread 1's `pop_theme` removes thread 0's
+theme, so thread 0's lookup changes under its feet. -/
+theorem old_theme_stack_shared_across_threads :
+    let S0 : Nat → Stack Nat := fun _ => Stack.init ⟨[(['a'], 1)]⟩
+    (runMT true false [(0, .push ⟨[(['a'], 2)]⟩ false)] S0 (slotOf true 1)).get ['a'] = some 2 ∧
+    (runMT false false [(0, .push ⟨[(['a'], 2)]⟩ false)] S0 (slotOf false 1)).get ['a'] = some 1 ∧
+    (runMT true false [(0, .push ⟨[(['a'], 2)]⟩ false), (1, .pop)] S0 (slotOf true 0)).get ['a'] = some 1 ∧
+    (runMT false false [(0, .push ⟨[(['a'], 2)]⟩ false), (1, .pop)] S0 (slotOf false 0)).get ['a'] = some 2 := by
+  decide
 
 /-! ## `Theme(styles, inherit)` -/
 
@@ -241,6 +319,55 @@ theorem config_roundtrip_inherit (lower interp : Bool) (defaults : Dict σ) (par
   | some s => simp
   | none => simpa using hdef n h
 
+/-- **from_file_total**: with interpolation off (the repaired parser), for every text — any text
+when names are kept, any text without a capital sigma U+03A3 while names are lower-cased (its
+lower-casing is position dependent in CPython and outside the model) — `Theme.from_file` ends in a
+theme, in one of the `configparser` exceptions (`MissingSectionHeaderError`, `DuplicateSectionError`,
+`DuplicateOptionError`, `ParsingError`, `NoSectionError`), or in the exception `Style.parse` raised for
+one of the values (`StyleSyntaxError`); the model never answers `unmodelled` there. -/
+theorem from_file_total (defaults : Dict σ) (parse : Parse σ) (lower : Bool) (text : List Char)
+    (inherit : Bool) (h : lower = true → ∀ c ∈ text, c.toNat ≠ 0x3A3) :
+    (∃ t, fromFile defaults parse lower false text inherit = .ok t) ∨
+    (∃ e, fromFile defaults parse lower false text inherit = .err (.cfg e)) ∨
+    (∃ e d, parse d = .error e ∧ fromFile defaults parse lower false text inherit = .err (.parse e)) :=
+  fromFile_total defaults parse lower text inherit h
+
+/-- `Theme.read` is `Theme.from_file` on the file's text whenever that text has no carriage return
+(text mode translates `\r\n` and `\r` to `\n`; nothing else happens to the text — no BOM handling,
+no `encoding` argument in this version). -/
+theorem read_is_from_file (defaults : Dict σ) (parse : Parse σ) (lower interp : Bool) (text : List Char)
+    (inherit : Bool) (h : '\r' ∉ text) :
+    readPath defaults parse lower interp text inherit = fromFile defaults parse lower interp text inherit := by
+  unfold readPath
+  rw [universalNL_id text h]
+
+/-- …and with carriage returns it is not: a CRLF file reads fine (the `\r` is gone), while a name
+containing `\r` — which `from_file` on a `StringIO` round-trips — is cut in two by `Theme.read`. A
+leading BOM makes either of them raise `MissingSectionHeaderError`. -/
+theorem read_carriage_return_and_bom :
+    cfgItems true false (universalNL false "[styles]\r\na = red\r\n".toList) = .ok [(['a'], ['r','e','d'])] ∧
+    cfgItems true false "[styles]\na\rb = red".toList = .ok [(['a','\r','b'], ['r','e','d'])] ∧
+    cfgItems true false (universalNL false "[styles]\na\rb = red".toList) = .err .parsing ∧
+    cfgItems true false "\uFEFF[styles]\na = red".toList = .err .missingSectionHeader := by
+  decide
+
+/-- `[DEFAULT]` options are inherited by `[styles]`, continuation lines and empty lines inside a value
+are joined with newlines, comments are skipped (concrete instances of the widened parser model; the
+general behaviour is compared with the real parser on every generated text). -/
+theorem configparser_fragment_examples :
+    cfgItems true false "[DEFAULT]\nq = 1\na = 0\n[styles]\na = b".toList = .ok [(['q'], ['1']), (['a'], ['b'])] ∧
+    cfgItems true false "[styles]\na = b\n c\n\n d\nx = y".toList = .ok [(['a'], "b\nc\n\nd".toList), (['x'], ['y'])] ∧
+    cfgItems true false "[styles]\na = b\n# c\n  d".toList = .ok [(['a'], "b\nd".toList)] := by
+  decide
+
+/-- …duplicate sections / options raise the documented exceptions; `%(name)s` is literal text once
+interpolation is off. -/
+theorem configparser_fragment_errors :
+    cfgItems true false "[a]\n[a]".toList = .err .duplicateSection ∧
+    cfgItems true false "[other]\na = 1\nA = 2\n[styles]".toList = .err .duplicateOption ∧
+    cfgItems true false "[styles]\nb = %(a)s".toList = .ok [(['b'], "%(a)s".toList)] := by
+  decide
+
 /-- Side condition on the *generated* table: every key of `DEFAULT_STYLES` is a safe config name
 for the lower-casing parser `Theme.from_file` builds (known finding `config-name-case`; so `Theme().config` is inside the round trip's domain). -/
 theorem default_names_safe : Gen.defaultStyleNames.all (safeName true) = true := by decide +kernel
@@ -305,6 +432,7 @@ example : specLookup (σ := Nat) [(['b'], 1)] [⟨[(['a'], 2)], true⟩, ⟨[(['
 example : safeName true ['r','e','p','r','.','s','t','r'] = true ∧ safeName true ['a',' ','b'] = true
     ∧ safeName true ['F','o','o'] = false ∧ safeName false ['F','o','o'] = true
     ∧ safeName false ['a',':','b'] = false ∧ safeName false [' ','a'] = false := by decide
+example : safeName true ['é'] = true ∧ safeName true ['É'] = false ∧ safeName true ['a', 'Σ'] = false := by decide +kernel
 example : safeValue true ['b','o','l','d',' ','r','e','d'] = true ∧ safeValue true ['5','0','%'] = false
     ∧ safeValue false ['5','0','%'] = true := by decide
 example : Theme.config (σ := Nat) (fun _ => ['r','e','d']) ⟨[(['b'], 1), (['a'], 2)]⟩ =
